@@ -81,7 +81,7 @@ int main(int argc, char **argv) {
     }
     uint64_t seed = (uint64_t) env_long("VERIF_SEED", 1);
     bool th = thorough();
-    int N = th ? 20000 : 3000;
+    int N = th ? 300000 : 3000;
     // fixed instances of the known finding D7 (so that each listed finding is exercised on every run)
     const char *FIXED[] = {
         "{\"n\":5,\"edges\":[[0,1,0.6],[1,3,0.2],[3,2,0.5],[4,1,0.1],[4,2,0.8],[3,0,0.9],[0,2,0.9],[1,2,0.9]]}",
